@@ -33,6 +33,45 @@ ENTANGLED_CRITERIA = [("negative partial transpose", _crit_not_ppt, True), ("rea
                       ("positive map image not PSD", _crit_posmap, True), ("no symmetric extension", _crit_symext, False)]
 
 
+def _plucker_table(ctx, f):
+    """The 6x6 determinant of Pluecker coordinates of the 3x3 rank-4 criterion is a literal data table; it is compared entry by entry
+    (as normalised terms) with the reference table of the confirmed tree (engine/props/tables/plucker_3x3.json), and the coordinates
+    p[j,k,n,m] must be the 4x4 minors of the range basis on rows j<k<n<m."""
+    import json
+    import os
+    m = ctx.model
+    N = Normalizer(m, f, inline=False)
+    path = os.path.join(os.path.dirname(os.path.abspath(__file__)), "tables", "plucker_3x3.json")
+    try:
+        ref = json.load(open(path))["rows"]
+    except (OSError, KeyError, ValueError):
+        ref = None
+    tab = node = None
+    for n in walk_no_nested(f.node):
+        if isinstance(n, ast.Call) and getattr(n.func, "attr", "") == "det" and n.args and isinstance(n.args[0], ast.Call) and n.args[0].args and isinstance(n.args[0].args[0], ast.List):
+            rows = n.args[0].args[0].elts
+            if len(rows) == 6 and all(isinstance(r, ast.List) and len(r.elts) == 6 for r in rows):
+                tab, node = [[repr(N(e)) for e in r.elts] for r in rows], n
+    key = "3x3 rank-4 criterion: the 6x6 table of Pluecker-coordinate expressions equals the reference table"
+    if tab is None or ref is None:
+        ctx.ob("R-PRED", f, key, None, "table not found" if tab is None else "reference table missing", required=False)
+    else:
+        diff = [(i, j) for i in range(6) for j in range(6) if tab[i][j] != ref[i][j]]
+        ctx.ob("R-PRED", f, key, not diff, "36 entries identical" if not diff else
+               f"entry (row {diff[0][0]}, column {diff[0][1]}) differs from the reference ({len(diff)} entr{'y' if len(diff) == 1 else 'ies'} changed): F no longer vanishes on separable "
+               "rank-4 states, which are then declared entangled", node)
+    # the coordinates themselves: p[j-1, k-1, n-1, m-1] = det(q[[j-1, k-1, n-1, m-1], :]) under j < k < n < m
+    st = [n for n in walk_no_nested(f.node) if isinstance(n, ast.Assign) and isinstance(n.targets[0], ast.Subscript) and isinstance(n.targets[0].value, ast.Name) and n.targets[0].value.id == "p"
+          and isinstance(n.value, ast.Call) and getattr(n.value.func, "attr", "") == "det"]
+    if st:
+        tg = [unparse(e) for e in st[0].targets[0].slice.elts] if isinstance(st[0].targets[0].slice, ast.Tuple) else []
+        src = st[0].value.args[0] if st[0].value.args else None
+        rows_ = [unparse(e) for e in src.slice.elts[0].elts] if isinstance(src, ast.Subscript) and isinstance(src.slice, ast.Tuple) and isinstance(src.slice.elts[0], ast.List) else []
+        okc = bool(tg) and tg == rows_
+        ctx.ob("R-ENUM", f, "Pluecker coordinate p[j,k,n,m] is the minor of the range basis on exactly the rows (j,k,n,m)", okc,
+               "store index == selected rows" if okc else f"p[{', '.join(tg)}] is filled with the minor on rows [{', '.join(rows_)}]", st[0])
+
+
 def _reduced_state_roles(ctx, f):
     """rho_A (x) rho_B: the first Kronecker factor is the reduced state of the FIRST subsystem (trace over [1]), the second that of
     the second (trace over [0]).  Locals are resolved through direct assignment and through tuple-unpacking of a
@@ -153,6 +192,7 @@ def run(ctx):  # noqa: C901
         if f is isep:
             check_call_bases(ctx, f, "partial_channel.partial_channel", "sys")
     _reduced_state_roles(ctx, isep)
+    _plucker_table(ctx, isep)
     _shape_matmul(ctx, isep)
     _certain_type_errors(ctx, isep)
     r_kind_int(ctx, isep, "dim")
